@@ -316,3 +316,28 @@ func deepClone(v any) (any, error) {
 
 	return ret, nil
 }
+
+// copyTree returns a structural copy of a JSON-like tree. Unlike deepClone it
+// preserves scalar types exactly.
+func copyTree(v any) any {
+	switch v2 := v.(type) {
+	case map[string]any:
+		ret := make(map[string]any, len(v2))
+		for k, x := range v2 {
+			ret[k] = copyTree(x)
+		}
+
+		return ret
+
+	case []any:
+		ret := make([]any, len(v2))
+		for i, x := range v2 {
+			ret[i] = copyTree(x)
+		}
+
+		return ret
+
+	default:
+		return v
+	}
+}
